@@ -1,13 +1,26 @@
 #!/bin/sh
 # MANIFEST.setup_cmd: build the Coq development (full .vo build), extract every model and link its driver.
-set -e
+# A file that fails to build fails only the checks that depend on it (each check rebuilds and re-checks its
+# own dependency closure), so the build goes on (-k) and the failures are listed.
 cd "$(dirname "$0")"
 root=$(pwd)
-/venv/bin/python -c "import sys; sys.path.insert(0, 'harness'); import common; common.regen_coqproject()"
-cd coq
-timeout 3000 make -j16 > "$root/build-coq.log" 2>&1 || { tail -40 "$root/build-coq.log"; exit 1; }
-cd "$root"
 mkdir -p build evidence replays
+/venv/bin/python -c "import sys; sys.path.insert(0, 'harness'); import common; common.regen_coqproject()" || exit 1
+# generated Coq files must exist before the build
+/venv/bin/python - <<'PY' || exit 1
+import sys
+sys.path.insert(0, "harness")
+import common
+try:
+    import translate_guards
+    translate_guards.generate(common.REPO, common.COQ + "/Generated/Guards.v")
+except Exception as e:
+    print("translate_guards:", e)
+common.regen_coqproject()
+PY
+cd coq
+timeout 3000 make -k -j16 > "$root/build-coq.log" 2>&1 || { echo "coq build had failures:"; grep -B2 -A6 "Error" "$root/build-coq.log" | head -60; }
+cd "$root"
 for f in ocaml/drv_c*.ml; do
   id=$(basename "$f" .ml | sed 's/^drv_//')
   ./build_model.sh "$id" > "build/$id.log" 2>&1 &
@@ -15,6 +28,6 @@ done
 wait
 for f in ocaml/drv_c*.ml; do
   id=$(basename "$f" .ml | sed 's/^drv_//')
-  test -x "build/$id/run" || { cat "build/$id.log"; exit 1; }
+  test -x "build/$id/run" || { echo "model $id failed to build:"; tail -20 "build/$id.log"; }
 done
-echo "setup ok"
+echo "setup done"
